@@ -1,6 +1,72 @@
-//! C07 — not implemented yet.
+//! C07 — joins return exactly the relational join of their two inputs.
+//!
+//! Four join kinds; sides with their own transform prefixes (incl. grouping and combining); downstream
+//! steps; nested joins (must be rejected with an error); both modes, all partition counts.
+//! Oracle (independent of the model): the nested-loop relational join over the reference results of
+//! the two sides (`pipe::reference`), compared as a multiset; a join fed by a join ⇒ `Err`.
+
 use crate::ctx::Ctx;
+use crate::pipe::*;
+
+const KINDS: [JoinKind; 4] = [JoinKind::Inner, JoinKind::Left, JoinKind::Right, JoinKind::Full];
 
 pub fn run(cx: &mut Ctx) {
-    cx.notes.push("C07: harness not implemented".to_string());
+    let o = CheckOpts { par_vs_seq: true, vs_reference: true };
+    // exhaustive: all left/right inputs of <= 3 (quick 2) rows over 2 keys x 4 kinds x seq + par 1..3
+    let maxlen = cx.budget(2, 3);
+    let mut inputs: Vec<Vec<V>> = vec![vec![]];
+    let mut frontier: Vec<Vec<V>> = vec![vec![]];
+    for _ in 0..maxlen {
+        let mut next = vec![];
+        for s in &frontier {
+            for k in 0..2i64 {
+                let mut t = s.clone();
+                t.push(V::pair(V::I(k), V::I(t.len() as i64)));
+                next.push(t);
+            }
+        }
+        inputs.extend(next.iter().cloned());
+        frontier = next;
+    }
+    let mut n_ex = 0;
+    for l in &inputs {
+        for r in &inputs {
+            for k in KINDS {
+                let right = Prog { shape: Shape::KV, src: r.iter().map(|x| match x { V::P(a, b) => V::pair((**a).clone(), V::I(b.to_int() + 10)), o => o.clone() }).collect(), steps: vec![] };
+                let p = Prog { shape: Shape::KV, src: l.clone(), steps: vec![Step::Join(k, Box::new(right))] };
+                check_prog(cx, &p, &[Mode::Seq, Mode::Par(1), Mode::Par(2), Mode::Par(3)], &o);
+                n_ex += 1;
+            }
+        }
+    }
+    cx.exhaustive_blocks.push(format!("all pairs of keyed inputs of length <= {maxlen} over 2 keys x 4 join kinds x seq + par 1..3 ({n_ex} programs)"));
+
+    // random: transformed sides (incl. gbk / combine prefixes), downstream steps, occasional nested joins
+    let rounds = cx.budget(300, 6000);
+    let mut done = 0;
+    while done < rounds {
+        let nested = done % 12 == 0;
+        let lopts = GenOpts { max_steps: 4, max_rows: cx.budget(16, 60), barriers: done % 2 == 0, joins: nested, globals: false, nonlocal_batches: false };
+        let mut p = gen_prog_to(&mut cx.rng, &lopts, Shape::KV, if nested { 0 } else { 2 });
+        let ropts = GenOpts { max_steps: 4, max_rows: cx.budget(16, 60), barriers: done % 3 == 0, joins: nested && cx.rng.chance(1, 2), globals: false, nonlocal_batches: false };
+        let right = gen_prog_to(&mut cx.rng, &ropts, Shape::KV, if nested { 0 } else { 2 });
+        let kind = *cx.rng.pick(&KINDS);
+        p.steps.push(Step::Join(kind, Box::new(right)));
+        // downstream
+        let mut sh = Shape::KV;
+        for _ in 0..cx.rng.below(4) {
+            let dopts = GenOpts { max_steps: 1, max_rows: 0, barriers: true, joins: false, globals: false, nonlocal_batches: false };
+            let s = gen_step(&mut cx.rng, sh, &dopts, true, 2, 3);
+            sh = shape_after(sh, &s).unwrap();
+            p.steps.push(s);
+        }
+        if !reorder_inert(&p) { continue; }
+        let r = reference(&p);
+        if matches!(r, RefOut::Panic) { continue; }
+        cx.count(if matches!(r, RefOut::NestedJoin) { "program:nested-join" } else { "program:single-join" });
+        let choices = partition_choices(p.src.len());
+        let modes = vec![Mode::Seq, Mode::Par(*cx.rng.pick(&choices)), Mode::Par(*cx.rng.pick(&choices))];
+        check_prog(cx, &p, &modes, &o);
+        done += 1;
+    }
 }
